@@ -192,6 +192,53 @@ Proof.
   repeat split; vm_compute; reflexivity.
 Qed.
 
+(** ** The start-up read: vls-util init_state (and the same rule in PrivClient::get) *)
+
+(** Acceptance is exactly: the delivered tag is the tag of exactly the delivered list under the
+    nonce of this read — for every list, the empty one included. *)
+Theorem C17_init_state_accepts_only_tagged :
+  forall mac s n rs t l,
+    init_state mac s n rs t = Some l -> l = rs /\ t = shared_tag mac s n rs.
+Proof. exact init_state_accepts_tagged. Qed.
+
+Theorem C17_init_state_accepts_authentic :
+  forall mac s n rs, init_state mac s n rs (shared_tag mac s n rs) = Some rs.
+Proof. exact init_state_authentic. Qed.
+
+(** An accepted reply is the list the server authenticated (outside the known framing
+    classes), and it was authenticated for this read's nonce. *)
+Theorem C17_init_state_accepted_reply_is_authenticated :
+  forall mac, InjectiveMac mac ->
+  forall s n rs t l n0 rs0,
+    wf_records rs -> wf_records rs0 ->
+    t = shared_tag mac s n0 rs0 -> length n0 = length n ->
+    init_state mac s n rs t = Some l ->
+    n0 = n /\ (~ Known (n, rs) (n, rs0) -> l = rs0).
+Proof. exact init_state_accepts_authenticated. Qed.
+Print Assumptions C17_init_state_accepted_reply_is_authenticated.
+
+(** A reply without records is accepted only if the server authenticated "no records" for this
+    nonce: truncation of the stored state to nothing is refused.  Unconditional — no framing
+    class applies to the empty list. *)
+Theorem C17_init_state_empty_reply_is_authenticated :
+  forall mac, InjectiveMac mac ->
+  forall s n t l n0 rs0,
+    t = shared_tag mac s n0 rs0 -> length n0 = length n ->
+    init_state mac s n [] t = Some l -> n0 = n /\ rs0 = [] /\ l = [].
+Proof. exact init_state_empty_authenticated. Qed.
+Print Assumptions C17_init_state_empty_reply_is_authenticated.
+
+(** non-vacuity: the authentic empty reply is accepted, the same empty reply carrying the tag of
+    a one-record state, no tag, or the empty-state tag of another nonce is refused *)
+Example C17_init_state_nonvacuous :
+  let n := repeat 7 32 in let n' := repeat 8 32 in let rs0 := [([107], 3, [9; 9])] in
+  init_state toy_mac [5] n [] (shared_tag toy_mac [5] n []) = Some [] /\
+  init_state toy_mac [5] n [] (shared_tag toy_mac [5] n rs0) = None /\
+  init_state toy_mac [5] n [] [] = None /\
+  init_state toy_mac [5] n [] (shared_tag toy_mac [5] n' []) = None /\
+  init_state toy_mac [5] n rs0 (shared_tag toy_mac [5] n rs0) = Some rs0.
+Proof. vm_compute. repeat split. Qed.
+
 (** The client tag of a put is never the server tag of a put. *)
 Theorem C17_client_server_separated :
   forall mac, InjectiveMac mac ->
